@@ -348,7 +348,18 @@ def run(case, res):
         names = list(chunk[0].keys())
         try:
             if names:
-                twin.step_multiple({k: [c[k] for c in chunk] for k in names}, expected, file=buf)
+                prov = {k: [c[k] for c in chunk] for k in names}
+                if (pos + bsz) % 2 == 0:
+                    # the documented single-digit string form, where it applies
+                    for k in list(prov):
+                        if all(0 <= v <= 9 for v in prov[k]):
+                            prov[k] = ''.join(str(v) for v in prov[k])
+                            res.probes.hit('string_form_inputs')
+                    for o in list(expected):
+                        if all(x == '?' or 0 <= x <= 9 for x in expected[o]):
+                            expected[o] = ''.join(str(x) for x in expected[o])
+                            res.probes.hit('string_form_expected')
+                twin.step_multiple(prov, expected, file=buf)
             else:
                 twin.step_multiple(nsteps=bsz, expected_outputs=expected, file=buf)
         except PlantedAssertion:
